@@ -139,6 +139,11 @@ var quiet int
 
 // Observe runs f without scheduling points; for harness reads of hooked state.
 func Observe(f func()) {
+	if cur == nil {
+		// free-running pass: an observation is harness bookkeeping plus read-only calls into the instance
+		Own(f)
+		return
+	}
 	quiet++
 	defer func() { quiet-- }()
 	f()
@@ -365,4 +370,66 @@ func Run(prefix []int, expect []string, maxSteps int, threads []func()) *Result 
 	e.wg.Wait()
 	cur = nil
 	return e.res
+}
+
+var (
+	ownMu    sync.Mutex
+	ownOwner atomic.Int64
+)
+
+// Own runs f, which touches only the harness's own bookkeeping (expected values, violation sets, counters shared by
+// thread bodies). Attached it is a plain call: the cooperative scheduler runs one thread at a time. Detached — the
+// free-running race pass — the bookkeeping of concurrently running bodies is serialised by one re-entrant mutex, so
+// that the race detector reports the repository's unsynchronised accesses and not the harness's.
+func Own(f func()) {
+	if cur != nil {
+		f()
+		return
+	}
+	g := goid()
+	if ownOwner.Load() == g {
+		f()
+		return
+	}
+	ownMu.Lock()
+	ownOwner.Store(g)
+	defer func() {
+		ownOwner.Store(0)
+		ownMu.Unlock()
+	}()
+	f()
+}
+
+// FreeRun runs the thread bodies of one harness instance as plain goroutines with the scheduler detached: every hooked
+// primitive is the real one, so a binary built with -race sees exactly the synchronisation the repository performs.
+// (Under the controlled scheduler every hand-off is a happens-before edge and the detector is blind.) Panics of the
+// bodies are returned, not judged: this pass samples schedules and decides nothing but data races.
+func FreeRun(threads []func()) []string {
+	if cur != nil {
+		panic("sched: FreeRun while attached")
+	}
+	var (
+		wg     sync.WaitGroup
+		mu     sync.Mutex
+		panics []string
+	)
+	start := make(chan struct{})
+	for _, fn := range threads {
+		wg.Add(1)
+		go func() {
+			defer wg.Done()
+			defer func() {
+				if p := recover(); p != nil {
+					mu.Lock()
+					panics = append(panics, fmt.Sprint(p))
+					mu.Unlock()
+				}
+			}()
+			<-start
+			fn()
+		}()
+	}
+	close(start)
+	wg.Wait()
+	return panics
 }
